@@ -1,6 +1,7 @@
 //! Common machinery for the model-checking harnesses (see /verif/DESIGN.md §2).
 pub mod cli;
 pub mod cmdgen;
+pub mod connsys;
 pub mod dump;
 pub mod imgx;
 pub mod model;
